@@ -35,11 +35,11 @@ RULE_CONC = ("concurrent part: configurations (capacity, sequential prefill, per
              "another thread's critical section, growth, pop on empty, PopN of several elements overlapping a Push)")
 
 
-def build(binary, work):
+def build(binary, work, fams=None):
     """harness build (same as common.build_harness); for hvs the mutex shim of ringbuffer.go is
     tools/verifshim/rsync/rsync.go (Unlock yields after the release) instead of the generic ysync."""
     if binary != "hvs":
-        return C.build_harness(work, binary)
+        return C.build_harness(work, binary, fams=fams)
     import shutil
     modsrc = open(os.path.join(C.HARNESS, "go.mod")).read().replace("=> /repo", "=> " + C.REPO)
     modfile = work.path("go.mod")
@@ -52,7 +52,10 @@ def build(binary, work):
     vdir = os.path.join(C.REPO, "verifshim", "rsync")
     repl = {k: v for k, v in repl.items() if os.path.dirname(k) != vdir}
     repl[os.path.join(vdir, "rsync.go")] = os.path.join(C.VERIF, "tools", "verifshim", "rsync", "rsync.go")
-    overlay = C.make_overlay(work, repl)
+    stubs, hooks = C.restricted_overlay(binary, fams)
+    if stubs is not None:
+        repl.update(stubs)
+    overlay = C.make_overlay(work, repl, only_hooks=hooks)
     out_bin = work.path(binary)
     rc, out = C.sh(["go", "build", "-modfile", modfile, "-tags", "verif", "-overlay", overlay, "-o", out_bin, "./cmd/" + binary],
                    cwd=C.HARNESS, env=dict(C.GOENV), timeout=900)
